@@ -10,6 +10,7 @@ import builtins
 import math
 import random
 
+from vlib import kf
 from vlib.driver import digest
 from vlib.values import canon
 
@@ -51,7 +52,7 @@ def run_shard(spec):
     import xdeps.refs as R
     import xdeps.tasks as T
     rng = random.Random("C05:%s:%s" % (spec["seed"], spec["shard"]))
-    counters, digests, samples, violations = {}, set(), [], []
+    counters, digests, samples, violations, known = {}, set(), [], [], []
     m = xdeps.Manager()
     o = O()
     o.p = 1.5
@@ -148,6 +149,13 @@ def run_shard(spec):
                 ("n.x", I(rn, "x", m), [9.0, -3.5]), ("n.y", I(rn, "y", m), [8.0]), ("l0", I(rl, 0, m), [4.0, -2.25]),
                 ("l1", I(rl, 1, m), [6.0, 0.125]), ("o.p", A(ro, "p", m), [2.5, -7.0]), ("g.ga", I(g, "ga", m), [1.0, 3.0])]
 
+    def owners(ref):
+        out, ow = [], ref._owner
+        while isinstance(ow, R.MutableRef) and not isinstance(ow, R.Ref):
+            out.append(ow)
+            ow = ow._owner
+        return out
+
     def val(e):
         try:
             return ("ok", canon(e._get_value()))
@@ -172,6 +180,10 @@ def run_shard(spec):
             digests.add(digest(desc))
         # perturbation experiment
         v0 = val(e)
+        if v0[0] == "ok" and isinstance(e._get_value(), (dict, list, O)):
+            # the expression denotes a whole container object (identity), not a value read from locations
+            counters["perturbation_skipped_container_valued"] = counters.get("perturbation_skipped_container_valued", 0) + 1
+            return
         if v0[0] != "ok":
             counters["perturbation_skipped_unevaluable"] = counters.get("perturbation_skipped_unevaluable", 0) + 1
             return
@@ -187,10 +199,26 @@ def run_shard(spec):
             for nv in vals:
                 if nv == old:
                     continue
-                m.set_value(ref, nv)
+                try:
+                    m.set_value(ref, nv)
+                except Exception:
+                    # the perturbed value makes Python itself reject the registered expression
+                    counters["perturbations_rejected_by_python"] = counters.get("perturbations_rejected_by_python", 0) + 1
+                    continue
                 counters["perturbations"] = counters.get("perturbations", 0) + 1
                 v1 = val(e)
-                if v1 != v0 and ref not in got:
+                # the manager triggers on the assigned location and on its owners: a location read
+                # through a computed key is covered by its (reported) owner
+                covered = ref in got or any(ow in got for ow in owners(ref))
+                if v1 != v0 and not covered and desc[1] == "computed-key-toplevel" and isinstance(ref._owner, R.Ref) \
+                        and kf.is_open("KF5", ID):
+                    known.append(kf.known("KF5"))
+                    m.set_value(ref, old)
+                    if registered:
+                        m.unregister(r["t"])
+                        d["t"] = 0.0
+                    return
+                if v1 != v0 and not covered:
                     violations.append({"what": "C05 %s: value of %s changed (%s -> %s) when %s was assigned, but %s is not a reported dependency %s" % (
                         desc, e, v0, v1, ref, ref, sorted(map(str, got))), "case": desc})
                     m.set_value(ref, old)
@@ -254,7 +282,7 @@ def run_shard(spec):
             violations.append({"what": "C05 %s: dependencies of %s are %r (expected the empty set)" % (name, e, got), "case": [name]})
     counters["exhaustive"] = True
     return {"evaluations": counters.get("structural_cases", 0), "digests": sorted(digests), "samples": samples,
-            "counters": counters, "violations": violations[:12], "known": []}
+            "counters": counters, "violations": violations[:12], "known": known}
 
 
 TEXT = ("Exhaustive over the finite scope node class (introspected) x operand slot x leaf form x wrapper nesting "
